@@ -122,3 +122,48 @@ Theorem C10_monitor_is_property_c2r_decoder : forall valid b r,
   monitor (IDecC valid b) (ODecC r) = true <-> (bytes_ok b = true -> r <> Panic).
 Proof. exact monitor_dec_c_spec. Qed.
 Print Assumptions C10_monitor_is_property_c2r_decoder.
+
+(* The boolean monitor on encoder cases is exactly the following.  An encoder case takes a
+   message m (of the Rust message type: typed_r2c / typed_c2r), and observes [elen] = encoded_len(),
+   [enc] = the digest of what to_bytes() wrote, [sink] = the digest of what the sender's
+   start_send handed to the websocket (or its SendError), [dec] = what the receiver's decoder
+   made of the written bytes (contents digested: obs_r2c / obs_c2r).  Digests stand for long byte strings
+   (length, 64-byte prefix, checksum; identity up to 64 bytes); [digest_len e] is the length
+   of the string whose digest is e (C10_digest_len_of_digest).  The monitor accepts iff
+     1. none of the four calls panicked;
+     2. encoded_len and to_bytes succeeded and the predicted length is the written length;
+     3. whatever the sink sent is exactly the encoding;
+     4. a message within the wire format's ranges (wf_r2c / wf_c2r) decoded back to itself;
+     5. if the sender's sink accepted the message (and, relay->client, the receiver speaks the
+        version the frame belongs to), the receiver's decoder accepted it;
+     6. (relay->client only) a frame of the other protocol version with a payload of at most
+        MAX_PACKET_SIZE was rejected with FrameNotAllowedInVersion.
+   Terms that are not values of the message types (typed_r2c / typed_c2r = false) are outside the
+   quantifier: the monitor accepts them (monitor_enc_untyped_r/_c in Proofs/C10.v). *)
+Theorem C10_monitor_is_property_r2c_encoder : forall v m elen enc sink dec,
+  typed_r2c (is_point_of (r2c_keys m)) m = true ->
+  (monitor (IEncR v m) (OEncR elen enc sink dec) = true <->
+   ((elen <> Panic /\ enc <> Panic /\ sink <> Panic /\ dec <> Panic) /\
+    (exists l e, elen = Ok l /\ enc = Ok e /\ l = digest_len e) /\
+    (forall s, sink = Ok s -> enc = Ok s) /\
+    (wf_r2c (is_point_of (r2c_keys m)) v m = true -> dec = Ok (obs_r2c m)) /\
+    (version_ok v m = true -> forall s, sink = Ok s -> exists m', dec = Ok m')) /\
+   (version_ok v m = false -> r2c_payload_len m <= MAXP -> dec = Err E_VERSION)).
+Proof. exact monitor_enc_r_spec. Qed.
+Print Assumptions C10_monitor_is_property_r2c_encoder.
+
+Theorem C10_monitor_is_property_c2r_encoder : forall m elen enc sink dec,
+  typed_c2r (is_point_of (c2r_keys m)) m = true ->
+  (monitor (IEncC m) (OEncC elen enc sink dec) = true <->
+   (elen <> Panic /\ enc <> Panic /\ sink <> Panic /\ dec <> Panic) /\
+   (exists l e, elen = Ok l /\ enc = Ok e /\ l = digest_len e) /\
+   (forall s, sink = Ok s -> enc = Ok s) /\
+   (wf_c2r (is_point_of (c2r_keys m)) m = true -> dec = Ok (obs_c2r m)) /\
+   (forall s, sink = Ok s -> exists m', dec = Ok m')).
+Proof. exact monitor_enc_c_spec. Qed.
+Print Assumptions C10_monitor_is_property_c2r_encoder.
+
+(* the length a digest stands for is the length of the digested string *)
+Theorem C10_digest_len_of_digest : forall b, digest_len (digest b) = len b.
+Proof. exact digest_len_digest. Qed.
+Print Assumptions C10_digest_len_of_digest.
